@@ -626,9 +626,132 @@ class Canonicaliser:
                     for ch in ast.iter_child_nodes(n):
                         ch._parent = n
 
+    # -- context managers of the package, applied
+    def _context_manager(self, call, cls):
+        """(generator FunctionDef, is_method, receiver expr or None) for `with <call>:` when <call> is a call of a
+        @contextmanager function / method of the package with exactly one top-level `yield` and no try; else None"""
+        if not isinstance(call, ast.Call):
+            return None
+        f = call.func
+        h, is_method, recv = None, False, None
+        if isinstance(f, ast.Name):
+            cands = [fs[f.id] for fs in self.module_funcs.values() if f.id in fs]
+            h = cands[0] if len(cands) == 1 else None
+        elif isinstance(f, ast.Attribute):
+            recv, is_method = f.value, True
+            if isinstance(recv, ast.Name) and recv.id == "self" and cls is not None:
+                h = self.pm.find_method(cls, f.attr)[1]
+            else:
+                cands = [m for cn in self.pm.classes for m in self.pm.own_methods(cn) if m.name == f.attr
+                         and "contextmanager" in {norm_name(d).split(".")[-1] for d in m.decorator_list}]
+                h = cands[0] if len(cands) == 1 else None
+        if h is None or "contextmanager" not in {norm_name(d).split(".")[-1] for d in h.decorator_list}:
+            return None
+        ys = [n for n in ast.walk(h) if isinstance(n, (ast.Yield, ast.YieldFrom))]
+        tops = [b for b in h.body if isinstance(b, ast.Expr) and isinstance(b.value, ast.Yield)]
+        if len(ys) != 1 or len(tops) != 1 or any(isinstance(n, (ast.Try, ast.Return)) for n in ast.walk(h)):
+            return None
+        return h, is_method, recv
+
+    def apply_context_managers(self):
+        """`with cm(args) [as v]: BODY` with cm a simple generator-based context manager of the package reads as
+        <statements before the yield>; [v = <yielded value>]; BODY; <statements after the yield> — which is what runs
+        (without try / finally in cm the part after the yield is skipped when BODY raises, exactly like straight code)"""
+        n_applied = [0]
+        me = self
+
+        def rewrite(stmts, cls, tag_base):
+            out = []
+            for st in stmts:
+                for field in ("body", "orelse", "finalbody"):
+                    sub = getattr(st, field, None)
+                    if isinstance(sub, list) and sub and isinstance(sub[0], ast.stmt) and not isinstance(
+                            st, (ast.ClassDef,)):
+                        setattr(st, field, rewrite(sub, cls, tag_base))
+                if isinstance(st, ast.Try):
+                    for hd in st.handlers:
+                        hd.body = rewrite(hd.body, cls, tag_base)
+                if isinstance(st, ast.With) and len(st.items) == 1:
+                    cm = me._context_manager(st.items[0].context_expr, cls)
+                    if cm is not None:
+                        h, is_method, recv = cm
+                        call = st.items[0].context_expr
+                        ps = [a.arg for a in h.args.args]
+                        mapping = {}
+                        if is_method and ps:
+                            if not _simple(recv):
+                                out.append(st)
+                                continue
+                            mapping[ps[0]] = recv
+                            ps = ps[1:]
+                        ok = len(call.args) <= len(ps) and not h.args.vararg and not h.args.kwarg
+                        for p_, a in zip(ps, call.args):
+                            mapping[p_] = a
+                        for k in call.keywords:
+                            if k.arg in ps:
+                                mapping[k.arg] = k.value
+                            else:
+                                ok = False
+                        dflt = dict(zip([a.arg for a in h.args.args][len(h.args.args) - len(h.args.defaults):], h.args.defaults))
+                        for p_ in ps:
+                            if p_ not in mapping:
+                                if p_ in dflt:
+                                    mapping[p_] = dflt[p_]
+                                else:
+                                    ok = False
+                        if not ok or not all(_simple(v) for v in mapping.values()):
+                            out.append(st)
+                            continue
+                        tag = f"{h.name.lstrip('_')}"
+                        stored = {x.id for x in ast.walk(h) if isinstance(x, ast.Name) and isinstance(x.ctx, ast.Store)}
+                        for nm in stored:
+                            if nm not in mapping:
+                                mapping[nm] = ast.Name(id=f"{nm}__{tag}", ctx=ast.Load())
+                        body = [b for b in h.body if not (isinstance(b, ast.Expr) and isinstance(b.value, ast.Constant))]
+                        yi = next(i for i, b in enumerate(body) if isinstance(b, ast.Expr) and isinstance(b.value, ast.Yield))
+                        pre = [substitute_stmt(clone(b), mapping) for b in body[:yi]]
+                        post = [substitute_stmt(clone(b), mapping) for b in body[yi + 1:]]
+                        mid = []
+                        if st.items[0].optional_vars is not None:
+                            yv = body[yi].value.value
+                            yv = substitute(yv, mapping) if yv is not None else ast.Constant(value=None)
+                            mid = [ast.Assign(targets=[clone(st.items[0].optional_vars)], value=yv)]
+                        new = pre + mid + list(st.body) + post
+                        for b in pre + mid + post:
+                            for x in ast.walk(b):
+                                if hasattr(x, "lineno") or isinstance(x, (ast.stmt, ast.expr)):
+                                    x.lineno = st.lineno
+                                    x.col_offset = getattr(st, "col_offset", 0)
+                        # statements after the body sit after its last line
+                        last = max([getattr(x, "lineno", st.lineno) for b in st.body for x in ast.walk(b)] + [st.lineno])
+                        for b in post:
+                            for x in ast.walk(b):
+                                if hasattr(x, "lineno"):
+                                    x.lineno = last + 1e-3
+                        out += new
+                        n_applied[0] += 1
+                        continue
+                out.append(st)
+            return out
+        for m, (rel, tree, _) in self.pm.modules.items():
+            for s_ in tree.body:
+                if isinstance(s_, ast.FunctionDef):
+                    s_.body = rewrite(s_.body, None, s_.name)
+                elif isinstance(s_, ast.ClassDef):
+                    for f in s_.body:
+                        if isinstance(f, ast.FunctionDef):
+                            f.body = rewrite(f.body, s_.name, f.name)
+        self.stats["context_managers_applied"] = n_applied[0]
+        if n_applied[0]:
+            for m, (rel, tree, _) in self.pm.modules.items():
+                for n in ast.walk(tree):
+                    for ch in ast.iter_child_nodes(n):
+                        ch._parent = n
+
     def run(self):
         pm = self.pm
         self.apply_decorators()
+        self.apply_context_managers()
         for m, (rel, tree, _) in pm.modules.items():
             for s in tree.body:
                 if isinstance(s, ast.FunctionDef):
